@@ -196,3 +196,96 @@ def lifetime_linkage(db, body):
         elif how == "mut" and r not in in_mut:
             bad.append("&mut output derives from a shared input region")
     return (not bad), ("; ".join(bad) if bad else "output regions %d, all tied to inputs" % len(rout))
+
+
+# ---- tiling (engine C) -----------------------------------------------------------------------
+
+def tiling(a, pieces, total, facts):
+    """pieces: list of (offset Poly, extent Poly) in bytes over one base object of `total` bytes.
+    Proves: first offset == 0, consecutive pieces adjacent, last end == total (after ordering the pieces by
+    provable offset order).  Returns (status, detail)."""
+    from .poly import prove
+    pf = a.poly_facts(facts)
+    ps = list(pieces)
+    # order: repeatedly pick the piece whose offset equals the current end
+    cur = Poly.const(0)
+    order = []
+    while ps:
+        nxt = None
+        for p in ps:
+            if prove(("==", p[0] - cur), pf):
+                nxt = p
+                break
+        if nxt is None:
+            return REFUTED, "no piece starts at byte %r (pieces: %s)" % (cur, "; ".join("[%r, +%r)" % q for q in pieces))
+        if not prove((">=", nxt[1]), pf):
+            return UNKNOWN, "extent %r not provably non-negative" % (nxt[1],)
+        order.append(nxt)
+        ps.remove(nxt)
+        cur = cur + nxt[1]
+    if not prove(("==", cur - total), pf):
+        return REFUTED, "pieces end at byte %r but the object has %r bytes" % (cur, total)
+    return PROVED, "pieces %s tile [0, %r) exactly" % ("; ".join("[%r, +%r)" % q for q in order), total)
+
+
+# ---- element transfers (engine C): raw reads / writes / copies with symbolic extents -----------
+
+def transfers(a):
+    """Raw moves of element storage in a body: dict with lists 'read', 'write', 'copy', 'tcopy', 'swap'.
+    Each entry carries base, byte offset, byte size (Polys), the value read/written and the call site."""
+    te = a.tenv
+    out = {"read": [], "write": [], "copy": [], "tcopy": [], "swap": []}
+    for c in a.calls:
+        fn = c.fn
+        if fn in ("core::ptr::read", "core::ptr::read_unaligned", "core::ptr::read_volatile") and c.args[0][0] == "P":
+            p = c.args[0]
+            out["read"].append({"c": c, "bb": c.bb, "base": p[1], "off": p[2], "ty": c.targs[0], "size": te.size(c.targs[0]), "val": c.ret})
+        elif fn in ("core::ptr::write", "core::mem::MaybeUninit::<T>::write") and c.args[0][0] == "P":
+            p = c.args[0]
+            out["write"].append({"c": c, "bb": c.bb, "base": p[1], "off": p[2], "ty": c.targs[0], "size": te.size(c.targs[0]), "val": c.args[1]})
+        elif fn in ("core::ptr::copy", "core::ptr::copy_nonoverlapping") and c.args[0][0] == "P" and c.args[1][0] == "P":
+            n = a.as_poly(c.args[2])
+            out["copy"].append({"c": c, "bb": c.bb, "src": c.args[0], "dst": c.args[1], "count": n, "ty": c.targs[0], "esize": te.size(c.targs[0])})
+        elif fn == "core::mem::transmute_copy" and c.args[0][0] == "P":
+            p = c.args[0]
+            out["tcopy"].append({"c": c, "bb": c.bb, "base": p[1], "off": p[2], "src_ty": c.targs[0], "ty": c.targs[1], "size": te.size(c.targs[1]), "src_size": te.size(c.targs[0]), "val": c.ret})
+        elif fn == "core::slice::<impl [T]>::swap" and c.args[0][0] == "P":
+            out["swap"].append({"c": c, "bb": c.bb, "slice": c.args[0], "i": a.as_poly(c.args[1]), "j": a.as_poly(c.args[2]), "esize": te.size(c.targs[0])})
+    return out
+
+
+def peq(a, facts, x, y):
+    from .poly import prove
+    return prove(("==", x - y), a.poly_facts(facts))
+
+
+def in_bounds(a, facts, off, size, total):
+    """0 <= off and off + size <= total under facts."""
+    from .poly import prove
+    pf = a.poly_facts(facts)
+    return prove((">=", off), pf) and prove((">=", total - off - size), pf)
+
+
+def check_const_transmute(ctx, cfg, rule="C01.T"):
+    """Premise of every by-value reinterpretation: const_transmute reads the union only under
+    size_of::<A>() == size_of::<B>() and panics otherwise; the value moved in is the parameter."""
+    key = "const_transmute"
+    b = ctx.body(cfg, key, rule)
+    if b is None:
+        return False
+    a = ctx.analysis(cfg, key)
+    te = a.tenv
+    A = {"k": "param", "n": b["generics"][0]["n"]}
+    B = {"k": "param", "n": b["generics"][1]["n"]}
+    sa, sb = te.size(A), te.size(B)
+    unions = [g for g in a.aggregates if isinstance(g["kind"], tuple) and g["kind"][0] == "adt" and g["kind"][1].endswith("Union")]
+    ok = len(unions) == 1 and a.prove(unions[0]["facts"], "Eq", sa, sb) and unions[0]["ops"] == (("V", "arg", 1),)
+    pan = [c for c in a.calls if c.fn.startswith("core::panicking::")]
+    okp = bool(pan) and all(a.prove(c.facts, "Ne", sa, sb) for c in pan)
+    # the union is repr(C) with both fields at offset 0 (ADT facts)
+    u = [x for p, x in ctx.db(cfg).adts.items() if p.endswith("const_transmute::Union")]
+    oku = len(u) == 1 and u[0]["repr"]["c"] and u[0]["kind"] == "Union" and len(u[0]["fields"]) == 2
+    st = PROVED if (ok and okp and oku) else REFUTED
+    ctx.ob(rule, key, st, "union built from the parameter only under %s (required size_of A == size_of B): %s; panic exits under size mismatch: %s; union is repr(C) with two fields: %s" % (
+        fstr(unions[0]["facts"]) if unions else "-", ok, okp, oku), at=b["at"], cfg=cfg)
+    return st == PROVED
